@@ -64,7 +64,7 @@ func (obj *LongFloat) Simplify() any {
 func (obj *LongFloat) Equal(other Object) (eq bool) {
 	switch to := other.(type) {
 	case Fixnum:
-		eq = (*big.Float)(obj).Cmp(big.NewFloat(float64(to))) == 0
+		eq = (*big.Float)(obj).Cmp(new(big.Float).SetInt64(int64(to))) == 0
 	case Octet:
 		eq = (*big.Float)(obj).Cmp(big.NewFloat(float64(to))) == 0
 	case Bit:
